@@ -83,10 +83,14 @@ def run(chk, replay=None):
                     evs.append({"e": "Observed", "exists": 1, "k": k, "len": len(data)})
                 else:
                     evs.append({"e": "Observed", "exists": 0, "k": -1, "len": 0})
-                # resume (without interposer) and compare the final checkpoint with the uninterrupted run's
-                for f in (target + ".tmp",):
-                    pass
-                vt.run([exe, kind, target, str(niter), "-"], timeout=300, ok_codes=None)
+                # resume from whatever is on disk - again under the interposer, so that the resumed run's own writes are checked against the
+                # files the killed run left behind - and compare the final checkpoint with the uninterrupted run's
+                syslog2 = os.path.join(work, kind, "sys2.ndjson")
+                if os.path.exists(syslog2):
+                    os.remove(syslog2)
+                vt.run([exe, kind, target, str(niter), "-"], env={"VT_SYSLOG": syslog2, "VT_WATCH_DIR": w, "LD_PRELOAD": lib}, timeout=300, ok_codes=None)
+                evs.append({"e": "Restart"})
+                evs += [e for e in syslog_events(syslog2) if e.get("path", "") != "chk.txt.final" and e["e"] != "Killed"]
                 fin = open(target + ".final", "rb").read() if os.path.exists(target + ".final") else b""
                 evs.append({"e": "Resumed", "equal": 1 if fin == final else 0})
                 return evs
